@@ -749,34 +749,60 @@ func (ps *peerStore) collectGarbage(cutoff time.Time) error {
 		for _, ihStr := range infohashesList {
 			isSeeder := len(ihStr) > 5 && ihStr[5:6] == "S"
 
-			// list all (peer, timeout) pairs for the ih
-			ihList, err := redis.Strings(conn.Do("HGETALL", ihStr))
-			if err != nil {
-				return err
-			}
-
-			var pk serializedPeer
+			// Remove the expired peers of this swarm. The swarm is WATCHed while it
+			// is read, so that the removal fails if the swarm changes in between: a
+			// peer that announces again must not be removed on the strength of its
+			// old timestamp. The swarm is then read again.
 			var removedPeerCount int64
-			for index, ihField := range ihList {
-				if index%2 == 1 { // value
-					mtime, err := strconv.ParseInt(ihField, 10, 64)
-					if err != nil {
-						return err
-					}
-					if mtime <= cutoffUnix {
-						log.Debug("storage: deleting peer", log.Fields{
-							"Peer": decodePeerKey(pk).String(),
-						})
-						ret, err := redis.Int64(conn.Do("HDEL", ihStr, pk))
+			for {
+				if _, err := conn.Do("WATCH", ihStr); err != nil {
+					return err
+				}
+
+				// list all (peer, timeout) pairs for the ih
+				ihList, err := redis.Strings(conn.Do("HGETALL", ihStr))
+				if err != nil {
+					return err
+				}
+
+				expired := redis.Args{}.Add(ihStr)
+				var pk serializedPeer
+				for index, ihField := range ihList {
+					if index%2 == 1 { // value
+						mtime, err := strconv.ParseInt(ihField, 10, 64)
 						if err != nil {
 							return err
 						}
-
-						removedPeerCount += ret
+						if mtime <= cutoffUnix {
+							log.Debug("storage: deleting peer", log.Fields{
+								"Peer": decodePeerKey(pk).String(),
+							})
+							expired = expired.Add(pk)
+						}
+					} else { // key
+						pk = serializedPeer([]byte(ihField))
 					}
-				} else { // key
-					pk = serializedPeer([]byte(ihField))
 				}
+				if len(expired) == 1 {
+					if _, err := conn.Do("UNWATCH"); err != nil {
+						return err
+					}
+					break
+				}
+
+				_ = conn.Send("MULTI")
+				_ = conn.Send("HDEL", expired...)
+				reply, err := redis.Int64s(conn.Do("EXEC"))
+				if errors.Is(err, redis.ErrNil) || (err == nil && len(reply) != 1) {
+					// the transaction was discarded: the swarm changed after it
+					// was read
+					continue
+				}
+				if err != nil {
+					return err
+				}
+				removedPeerCount = reply[0]
+				break
 			}
 			// DECR seeder/leecher counter
 			decrCounter := ps.leecherCountKey(group)
